@@ -37,6 +37,7 @@ func runC06(c *Ctx, r *Report) {
 	c14Tables(c, r, "C06.R13")
 	c06Prefixes(c, r, "C06.R20")
 	c06TLSPrefixes(c, r, "C06.R22")
+	c04BoundedParsers(c, r, "C06.R23") // a prefix answers need-more, not an error: the HTTP/2 framer's limit does not depend on how much has arrived
 	c01R2(c, r, "C06.R21")    // evaluating a matcher never changes what later matchers read: freeze and unfreeze are the only writers of the matching state, and unfreeze always puts the cursor back
 	c08R6(c, r, "C06.R19")    // the same bytes give the same verdict: a new connection's matching buffer starts empty (a recycled slice keeps the length it was returned with)
 	c01R4(c, r, "C06.R16")    // evaluating a matcher never changes what later matchers read: what prefetch appends is a copy of what it read (never a view of the pooled chunk it returns)
